@@ -27,10 +27,178 @@ def dqm_loads_whole_file():
     src = inspect.getsource(dqm_mod.DiscreteQuadraticModel._from_file_numpy)
     code = '\n'.join(l.split('#')[0] for l in src.splitlines())
     whole = 'np.load(file_like)' in code.replace(' ', '')
-    section = 'np.load(io.BytesIO(file_like.read(' in code.replace(' ', '')
+    flat = code.replace(' ', '')
+    # `np.load(io.BytesIO(file_like.read(int(length))))`, or the same through a variable whose length is compared first
+    section = ('np.load(io.BytesIO(file_like.read(' in flat or
+               ('blob=file_like.read(int(length))' in flat and 'np.load(io.BytesIO(blob))' in flat))
     if whole == section:
         raise SystemExit('fileconsts.py: cannot tell what _from_file_numpy hands to np.load')
     return whole
+
+
+# ------------------------------------------------------------------ round 7: more of the format read from the source
+
+import ast
+import re
+import textwrap
+import zipfile
+
+
+def chars(t):
+    return '[' + ', '.join("'\\''" if c == "'" else "'\\\\'" if c == '\\' else f"'{c}'" for c in t) + ']'
+
+
+def _src(obj):
+    return textwrap.dedent(inspect.getsource(obj))
+
+
+def _name_of(node):
+    """a string constant, or an f-string with every placeholder written `{}`"""
+    if isinstance(node, ast.Constant) and isinstance(node.value, str):
+        return node.value
+    if isinstance(node, ast.JoinedStr):
+        return ''.join(v.value if isinstance(v, ast.Constant) else '{}' for v in node.values)
+    return None
+
+
+def cqm_member_names():
+    """names passed to zf.writestr / zf.open(name, 'w') in ConstrainedQuadraticModel.to_file, in source order, and which of
+    them are written with force_zip64=True; the compression constant used for compress=True"""
+    tree = ast.parse(_src(cqm_mod.ConstrainedQuadraticModel.to_file))
+    names, zip64, comp = [], [], None
+    for node in ast.walk(tree):
+        if isinstance(node, ast.Call) and isinstance(node.func, ast.Attribute) and isinstance(node.func.value, ast.Name) and node.func.value.id == 'zf':
+            if node.func.attr == 'writestr' or (node.func.attr == 'open' and len(node.args) > 1 and _name_of(node.args[1]) == 'w'):
+                nm = _name_of(node.args[0])
+                if nm is None:
+                    raise SystemExit('fileconsts.py: cannot read a member name in CQM.to_file')
+                names.append((node.lineno, nm))
+                if any(k.arg == 'force_zip64' and isinstance(k.value, ast.Constant) and k.value.value is True for k in node.keywords):
+                    zip64.append(nm)
+        if isinstance(node, ast.keyword) and node.arg == 'compression' and isinstance(node.value, ast.Attribute):
+            comp = getattr(zipfile, node.value.attr)
+    if comp is None:
+        raise SystemExit('fileconsts.py: cannot find the compression constant of CQM.to_file')
+    return [n for _, n in sorted(names)], zip64, comp
+
+
+def cqm_read_names():
+    """names the version-2 reader asks the archive for (zf.open / zf.read), and the directory regular expression"""
+    tree = ast.parse(_src(cqm_mod.ConstrainedQuadraticModel.from_file))
+    names, regex = [], None
+    for node in ast.walk(tree):
+        if isinstance(node, ast.Call) and isinstance(node.func, ast.Attribute) and isinstance(node.func.value, ast.Name):
+            if node.func.value.id == 'zf' and node.func.attr in ('open', 'read'):
+                nm = _name_of(node.args[0])
+                if nm is not None and nm not in names:
+                    names.append(nm)
+            if node.func.value.id == 're' and node.func.attr == 'match':
+                regex = _name_of(node.args[0])
+    if regex is None:
+        raise SystemExit('fileconsts.py: cannot find the constraint directory regular expression')
+    return sorted(names), regex
+
+
+def npz_names():
+    tree = ast.parse(_src(dqm_mod.DiscreteQuadraticModel._to_file_numpy))
+    for node in ast.walk(tree):
+        if isinstance(node, ast.Call) and isinstance(node.func, ast.Name) and node.func.id == 'save':
+            return [k.arg for k in node.keywords]
+    raise SystemExit('fileconsts.py: cannot find the np.savez call of DQM._to_file_numpy')
+
+
+def alignment(fn):
+    """the modulus of the padding arithmetic (`... % 64`) in make_header / Section.dumps"""
+    mods = {n.right.value for n in ast.walk(ast.parse(_src(fn))) if isinstance(n, ast.BinOp) and isinstance(n.op, ast.Mod)
+            and isinstance(n.right, ast.Constant) and isinstance(n.right.value, int)}
+    if len(mods) != 1:
+        raise SystemExit(f'fileconsts.py: cannot read the alignment of {fn.__name__}: {mods}')
+    return mods.pop()
+
+
+def written_version(fn):
+    for node in ast.walk(ast.parse(_src(fn))):
+        if isinstance(node, ast.Call) and getattr(node.func, 'id', None) == 'write_header':
+            for k in node.keywords:
+                if k.arg == 'version' and isinstance(k.value, ast.Tuple):
+                    return [e.value for e in k.value.elts]
+    raise SystemExit(f'fileconsts.py: cannot read the version written by {fn.__qualname__}')
+
+
+def version_limit(fn):
+    """the `(major, 0)` of `if version >= (major, 0): raise` in a loader"""
+    for node in ast.walk(ast.parse(_src(fn))):
+        if isinstance(node, ast.Compare) and isinstance(node.ops[0], ast.GtE) and isinstance(node.comparators[0], ast.Tuple):
+            return node.comparators[0].elts[0].value
+    raise SystemExit(f'fileconsts.py: cannot read the version limit of {fn.__qualname__}')
+
+
+def vartype_codes():
+    h = open(os.path.join(os.path.dirname(dimod.__file__), 'include', 'dimod', 'vartypes.h')).read()
+    m = re.search(r'enum\s+Vartype\s*\{(.*?)\}', h, flags=re.S)
+    if not m:
+        raise SystemExit('fileconsts.py: enum Vartype not found in vartypes.h')
+    return [w for w in re.findall(r'^\s*([A-Z]+)\s*,?', re.sub(r'//.*', '', m.group(1)), flags=re.M)]
+
+
+def dqm_checks_length():
+    flat = inspect.getsource(dqm_mod.DiscreteQuadraticModel._from_file_numpy).replace(' ', '')
+    return 'iflen(blob)!=length:' in flat and 'raise' in flat
+
+
+def cqm_checks_tiling():
+    flat = inspect.getsource(cqm_mod.ConstrainedQuadraticModel.from_file).replace(' ', '')
+    direct = 'zipfile.ZipFile(file_like' in flat
+    helper = '_open_archive(file_like)' in flat and hasattr(cqm_mod, '_open_archive') and 'start_dir' in inspect.getsource(cqm_mod._open_archive)
+    if direct == helper:
+        raise SystemExit('fileconsts.py: cannot tell how CQM.from_file opens the archive')
+    return helper
+
+
+def header_reads_fully():
+    flat = inspect.getsource(fv.read_header).replace(' ', '')
+    return 'whilelen(header_bytes)<header_len:' in flat
+
+
+def more_consts():
+    names, zip64, comp = cqm_member_names()
+    reads, regex = cqm_read_names()
+    from dimod.constrained.cyconstrained import ObjectiveView, ConstraintView
+    out = ['',
+           '/-! round 7: alignment, versions, vartype codes, archive member names, npz array names, compression -/',
+           f'def headerAlign : Nat := {alignment(fv.make_header)}',
+           f'def sectionAlign : Nat := {alignment(fv.Section.dumps)}',
+           f'def qmVersion : List Nat := {written_version(qm_mod.QuadraticModel.to_file)}',
+           f'def dqmVersion : List Nat := {written_version(dqm_mod.DiscreteQuadraticModel.to_file)}',
+           f'def bqmVersionLimit : Nat := {version_limit(bqm_mod.BinaryQuadraticModel.from_file)}',
+           f'def dqmVersionLimit : Nat := {version_limit(dqm_mod.DiscreteQuadraticModel.from_file)}',
+           f'def vartypeNames : List (List Char) := [{", ".join(chars(w) for w in vartype_codes())}]   -- position = code in VTYP records',
+           f'def cqmMemberNames : List (List Char) := [{", ".join(chars(n) for n in names)}]   -- {names!r}',
+           f'def cqmZip64Members : List (List Char) := [{", ".join(chars(n) for n in zip64)}]   -- written through zf.open(…, force_zip64=True)',
+           f'def cqmReadNames : List (List Char) := [{", ".join(chars(n) for n in reads)}]',
+           f'def cqmDirRegex : List Char := {chars(regex)}   -- {regex!r}',
+           f'def cqmCompressMethod : Nat := {comp}   -- zipfile.ZIP_DEFLATED',
+           f'def zipStoredMethod : Nat := {zipfile.ZIP_STORED}',
+           f'def npzArrayNames : List (List Char) := [{", ".join(chars(n) for n in npz_names())}]',
+           f'def exprTypeObjective : List Char := {chars(ObjectiveView.__name__)}',
+           f'def exprTypeConstraint : List Char := {chars(ConstraintView.__name__)}',
+           f'def eocdSignature : List UInt8 := {lst(zipfile.stringEndArchive)}',
+           f'def eocdSize : Nat := {zipfile.sizeEndCentDir}',
+           f'def localHeaderSignature : List UInt8 := {lst(zipfile.stringFileHeader)}',
+           f'def localHeaderSize : Nat := {zipfile.sizeFileHeader}',
+           f'def centralDirSignature : List UInt8 := {lst(zipfile.stringCentralDir)}',
+           f'def centralDirSize : Nat := {zipfile.sizeCentralDir}',
+           '',
+           '/-- does `DiscreteQuadraticModel._from_file_numpy` refuse a `BIAS` section shorter than its recorded length',
+           '    (`len(blob) != length`) before handing it to `np.load`? -/',
+           f'def dqmChecksSectionLength : Bool := {"true" if dqm_checks_length() else "false"}',
+           '/-- does `ConstrainedQuadraticModel.from_file` check that the archive members tile the file from the end of the',
+           '    header to the central directory (`_open_archive`) instead of calling `zipfile.ZipFile` directly? -/',
+           f'def cqmChecksArchiveTiling : Bool := {"true" if cqm_checks_tiling() else "false"}',
+           '/-- does `read_header` read the header dictionary fully (loop until `header_len` bytes or end of file)? -/',
+           f'def headerReadsFully : Bool := {"true" if header_reads_fully() else "false"}',
+           ]
+    return out
 
 
 def main():
@@ -54,8 +222,9 @@ def main():
               '',
               '/-- does `DiscreteQuadraticModel._from_file_numpy` hand `np.load` the whole file (`np.load(file_like)`)',
               '    rather than the `BIAS` section only? -/',
-              f'def dqmLoadsWholeFile : Bool := {"true" if dqm_loads_whole_file() else "false"}',
-              '', 'end FileFmt.Gen', '']
+              f'def dqmLoadsWholeFile : Bool := {"true" if dqm_loads_whole_file() else "false"}']
+    lines += more_consts()
+    lines += ['', 'end FileFmt.Gen', '']
     text = '\n'.join(lines)
     old = open(OUT).read() if os.path.exists(OUT) else None
     if old != text:
